@@ -195,6 +195,12 @@ class DetectModel(Model):
     def initial_store(self, it, key):
         return TOP
 
+    def construct(self, it, fr, n, depth):
+        vals = [it.ev(fr, a, depth) for a in n.get('c', ())]
+        if len(vals) == 1 and isinstance(vals[0], Sym) and 'basic_string_view' in fr.f.type(n):
+            return vals[0]          # the view handed on by value to a helper is the same view
+        return self.construct_record(it, fr, n, depth, vals)
+
     def address_of(self, it, fr, sub, depth):
         s = strip(sub)
         if s is not None and s['k'] == 'CXXOperatorCallExpr':
@@ -428,6 +434,10 @@ def run(prog, rep):
                     offm = trait_mentions(det, [a['c'][1]])
                 elif lhs['k'] == 'DeclRefExpr' and base_type(det.type(lhs)) == ENUM:   # the detected-encoding local
                     enc = byval.get(rhs.get('cv'))
+            elif a['k'] == 'ReturnStmt' and a.get('c') and enc is None:
+                rv = strip(a['c'][0])
+                if rv is not None and base_type(det.type(rv)) == ENUM:                    # ... or the branch returns it directly
+                    enc = byval.get(rv.get('cv'))
         chain.append((trait, off, enc, det.loc(n), offm if off is not None else set()))
     if len(chain) < 5:
         raise AnalysisBroken('R13.2: BOM test chain of DetectEncoding not recognised (%d tests)' % len(chain))
@@ -510,7 +520,8 @@ def run(prog, rep):
             continue
         n_l += 1
         rep.touch(f)
-        cnt = strip(writes[0]['c'][2])
+        from bsv.expr import resolve
+        cnt = resolve(f, writes[0]['c'][2])
         site = 'Write lambda %s<-%s@%s' % (m.group(1), f.id.split('|')[0][-1:], f.loc())
         if encs:
             ok_mul = cnt['k'] == 'BinaryOperator' and cnt.get('op') == '*' and any(strip(c).get('cv') == unit for c in cnt['c']) and \
